@@ -21,7 +21,7 @@ pub fn property() -> Property {
             "a prefix that ends inside the final PEM line may load or not; serve/info must agree with the result",
             "the notify watcher/debounce trigger is not driven; reload requests are exercised directly",
         ],
-        families: vec![(Box::new(ReloadFam), 2_500, 20_000)],
+        families: vec![(Box::new(ReloadFam), 2_500, 20_000), (Box::new(ListenerFam), 60, 600)],
     }
 }
 
@@ -425,5 +425,109 @@ fn reason(cert: &FileState, key: &FileState) -> &'static str {
         (FileState::Deleted, _) | (_, FileState::Deleted) => "missing file",
         (FileState::WrongKind(_), _) | (_, FileState::WrongKind(_)) => "PEM of the wrong kind",
         _ => "empty or garbled file",
+    }
+}
+
+// ------------------------------------------------------------------------------------------
+// family `listener` (Lab-S): the real Server built with new_with_reloadable_tls serves, on every
+// new connection, the certificate of the last successful reload (the accept path of server.rs)
+
+use crate::lab_sock::{PASSWORD, free_port, infra, run_real, wait_listening, worker_ip};
+
+#[derive(Clone, Debug, Serialize, Deserialize)]
+pub struct ListenerCase {
+    pub initial: u8,
+    /// steps: (member to write, write both files?, garbage instead?)
+    pub steps: Vec<(u8, bool, bool)>,
+}
+
+pub struct ListenerFam;
+
+async fn tcp_leaf(addr: std::net::SocketAddr) -> Result<Vec<u8>, String> {
+    let seen = Arc::new(Mutex::new(None));
+    let cfg = rustls::ClientConfig::builder_with_provider(provider())
+        .with_safe_default_protocol_versions()
+        .map_err(|e| e.to_string())?
+        .dangerous()
+        .with_custom_certificate_verifier(Arc::new(Capture(seen.clone())))
+        .with_no_client_auth();
+    let connector = tokio_rustls::TlsConnector::from(Arc::new(cfg));
+    let tcp = tokio::net::TcpStream::connect(addr).await.map_err(|e| e.to_string())?;
+    let name = ServerName::try_from("localhost").unwrap();
+    let _tls = connector.connect(name, tcp).await.map_err(|e| format!("handshake: {e}"))?;
+    let der = seen.lock().unwrap().clone().ok_or("no certificate seen")?;
+    Ok(der)
+}
+
+impl Family for ListenerFam {
+    type Case = ListenerCase;
+    fn name(&self) -> &'static str {
+        "listener"
+    }
+    fn strategy(&self, _tier: Tier) -> BoxedStrategy<ListenerCase> {
+        (0u8..4, proptest::collection::vec((0u8..4, proptest::bool::weighted(0.8), proptest::bool::weighted(0.2)), 1..5)).prop_map(|(initial, steps)| ListenerCase { initial, steps }).boxed()
+    }
+    fn case_budget_s(&self) -> u64 {
+        90
+    }
+    fn run(&self, case: &ListenerCase, _cx: &CaseCtx) -> CaseResult {
+        let mut out = Outcome::new();
+        let ms = members();
+        let c = case.clone();
+        let r: Result<bool, Fail> = run_real(async move {
+            let case = c;
+            let dir = tempfile::tempdir().map_err(|e| infra(format!("tempdir: {e}")))?;
+            let cert_path = dir.path().join("cert.pem");
+            let key_path = dir.path().join("key.pem");
+            let mut active = case.initial as usize % 4;
+            write_state(&cert_path, &FileState::Member(active as u8), true);
+            write_state(&key_path, &FileState::Member(active as u8), false);
+            let cfg = CertReloaderConfig { cert_path: cert_path.clone(), key_path: key_path.clone(), watch_enabled: false, debounce_ms: 0, check_expiry: true, expiry_warning_days: 30 };
+            let rel = CertReloader::new(cfg).map_err(|e| Fail::plain("C18.result", format!("initial load failed: {e}")))?;
+            let ip = std::net::IpAddr::V4(worker_ip());
+            let addr = std::net::SocketAddr::new(ip, free_port(ip)?);
+            let server = anytls_rs::server::Server::new_with_reloadable_tls(PASSWORD, rel.get_acceptor_ref(), default_padding(), None);
+            let a = addr.to_string();
+            tokio::spawn(async move {
+                let _ = server.listen(&a).await;
+            });
+            wait_listening(addr).await?;
+            let der = tcp_leaf(addr).await.map_err(|e| Fail::plain("C18.serve", format!("initial connection: {e}")))?;
+            ensure!(der == ms[active].der, "C18.serve", "the listener presented another certificate than the initial pair");
+            let mut failed_seen = false;
+            for (si, (m, both, garbage)) in case.steps.iter().enumerate() {
+                let m = *m as usize % 4;
+                if *garbage {
+                    write_state(&cert_path, &FileState::Garbage, true);
+                } else {
+                    write_state(&cert_path, &FileState::Member(m as u8), true);
+                    if *both {
+                        write_state(&key_path, &FileState::Member(m as u8), false);
+                    }
+                }
+                let r = rel.reload();
+                // what is on disk now
+                let key_member = if *both && !*garbage { m } else { usize::MAX };
+                let _ = key_member;
+                if r.is_ok() {
+                    active = m;
+                } else {
+                    failed_seen = true;
+                }
+                let der = tcp_leaf(addr).await.map_err(|e| Fail::plain("C18.serve", format!("step {si}: new connection after a {} reload fails: {e}", if r.is_ok() { "successful" } else { "failed" })))?;
+                ensure!(
+                    der == ms[active].der,
+                    "C18.serve",
+                    "step {si}: after a {} reload the listener presents {} on new connections, the active pair is member{active}",
+                    if r.is_ok() { "successful" } else { "failed" },
+                    ms.iter().position(|x| x.der == der).map(|i| format!("member{i}")).unwrap_or("an unknown certificate".into())
+                );
+            }
+            Ok(failed_seen)
+        });
+        let failed = r?;
+        out.nt(true);
+        out.class_if(failed, "failed-reload-then-connection");
+        Ok(out)
     }
 }
